@@ -379,6 +379,7 @@ def run(P, C, tier):
     r9_value_kinds(P, C)
     r10_insert_field(P, C)
     r11_grammar_value_kinds(P, C)
+    r12_finite_floats(P, C)
 
 
 def r8_paging_length(P, C):
@@ -802,3 +803,32 @@ def r11_grammar_value_kinds(P, C):
         unhandled = sorted(k for k in kinds if KINDS[k] not in handled and k != "variable")
         C.ob("R11", "cursor-kinds-handled:%s" % clause, bool(kinds) and not unhandled, "src/database/query_language/query.pest",
              "grammar kinds of a `%s` value: %s; explicit arms of the type check: %s; kinds that reach unreachable!(): %s" % (clause, sorted(kinds), sorted(x for x in handled if x), unhandled or "none"))
+
+
+def r12_finite_floats(P, C):
+    C.rule("R12", "every request that is valid for the language executes: a float literal accepted by a parser is finite -- `1.0e999` parses to `inf`, which the query "
+                  "compiler writes as the bare word `inf` into the statement (`no such column: inf`) and which a data model default carries into every later query; "
+                  "each ParamValue::Float built from parsed text is control-dependent on f64::is_finite")
+    n = 0
+    for b in sorted(P.bodies.values(), key=lambda x: x.id):
+        if "database::query_language::" not in b.id or "::tests::" in b.id or "_test::" in b.id:
+            continue
+        for bi in sorted(b.live_blocks()):
+            for si, st in enumerate(b.blocks[bi]["s"]):
+                rv = st["rv"]
+                if not (rv["r"] == "aggr" and (rv.get("adt") or "").endswith("ParamValue") and rv.get("variant") == "Float"):
+                    continue
+                t = b.def_term(bi, si, rv, 0, expand_vars=True)
+                if mir.has_call(t, r"str::parse$|::from_str$") is None:
+                    continue
+                n += 1
+                finite = False
+                for s_, vals, term in b.implied_guards(bi, expand_vars=True):
+                    atom, truth = mir.cond_atoms(term, vals)
+                    if atom[0] == "call" and re.search(r"f64::is_finite$", atom[1]) and truth is True:
+                        finite = True
+                    if atom[0] == "call" and re.search(r"f64::(is_nan|is_infinite)$", atom[1]) and truth is False:
+                        pass
+                C.ob("R12", "float-literal-finite:%s#%d" % (mir.short(b.id), len([1 for o in C.obligations if o["key"].startswith("C14/R12/float-literal-finite:%s#" % mir.short(b.id))])),
+                     finite, b.loc(bi), "ParamValue::Float(parsed text) %s" % ("only when the parsed number is finite" if finite else "without a finiteness test: a literal like 1.0e999 becomes `inf`"))
+    C.floor("R12", "float literals built from parsed text", n, 3)
